@@ -89,6 +89,15 @@ def r1_size_bound(ctx, rule):
         return
     count = acc[0].target.id
     call = acc[0].value
+    # the running count starts at 0 (its only other binding)
+    inits = [v for s_, v in stores_in(fn).get(count, []) if v is not None and s_ is not acc[0]]
+    if len(inits) != 1 or const(inits[0]) != 0 or isinstance(const(inits[0]), bool):
+        if len(inits) == 1 and isinstance(const(inits[0]), int):
+            ctx.bad(rule, WL, '%s starts at %s' % (count, U(inits[0])), 'the count of words written starts at 0: --size N otherwise yields N - %s words'
+                    % U(inits[0]), None, fn, firm=True)
+        else:
+            ctx.unk(rule, WL, 'the initial value of the word count %s is not a single constant (%s)' % (count, [U(v) for v in inits]))
+        return
     cg = ctx.fn(PG + 'create_guesses')
     a = arg_for(call, cg, 'limit')
     facts = {'loop_condition': U(lp.test), 'count': count, 'limit_argument': U(a) if a is not None else None}
